@@ -105,7 +105,15 @@ func ZZ_C02_rounds() {
 	ds.Status.ActiveReplicaSet = "foo-a"
 	newExists := nondet.Bool("newReplicaSetExists")
 	if newExists {
-		c.ERS = append(c.ERS, mkRS("B", "foo-b"))
+		rsB := mkRS("B", "foo-b")
+		// the replica set may have been created while the rollout was paused / frozen (a replica set is
+		// born with a copy of the ExtendedDaemonSet's annotations); the switches have been removed from
+		// the ExtendedDaemonSet since, so nothing is paused any more
+		if nondet.Bool("newReplicaSetBornWhilePaused") {
+			rsB.Annotations[datadoghqv1alpha1.ExtendedDaemonSetRollingUpdatePausedAnnotationKey] = "true"
+			rsB.Annotations[datadoghqv1alpha1.ExtendedDaemonSetRolloutFrozenAnnotationKey] = "true"
+		}
+		c.ERS = append(c.ERS, rsB)
 	}
 	// node0 may carry a resources override annotation that changes nothing for the pod (it names a
 	// container the template does not have, or is not decodable): the pod created there must still be
